@@ -389,7 +389,7 @@ def replay_witness(run, prog, case, witness, release=False, probes=True):
             if spec.password: c.send('PASS ' + spec.password)
             mp = bool(model.get(f'multi_prefix_{n}'))
             if mp: c.send('CAP LS'); c.send('CAP REQ :multi-prefix')
-            c.send(f'NICK {n}'); c.send(f'USER {spec.uname(n)} 0 * :Real {n}')
+            c.send(f'NICK {n}'); c.send(f'USER {spec.uname(n)} 0 * :{spec.realname(n)}')
             if mp: c.send('CAP END')
             got = c.barrier()
             if not any(b' 001 ' in l for l in got):
